@@ -51,7 +51,7 @@ def k_conv_specs():
         S.append(K('conv::k_conv_roundtrip_%s' % f, T + ': to_slice is below p; from_slice(to_slice(x)) == x; to_slice(from_slice(b)) == b for b<p; is_zero exactly for 0',
                    ['to_slice', 'from_slice', 'is_zero'], 'all canonical x, all 32-byte b<p', [MODEL]))
         S.append(K('conv::k_conv_interpret_%s' % f, T + '::interpret(64 bytes) = encode(big-endian value mod p), canonical', ['%s::interpret' % T], 'all 64-byte strings', [MODEL, DIVC]))
-        S.append(K('conv::k_conv_from_str_%s' % f, T + '::from_str: Some exactly for ASCII-digit strings; Horner step res*10+d per character', ['%s::from_str' % T], 'all valid UTF-8 strings of <= 2 bytes (quick; 3 bytes in the thorough tier; longer strings repeat the same step)', [MODEL]))
+        S.append(K('conv::k_conv_from_str_%s' % f, T + '::from_str: Some exactly for ASCII-digit strings; Horner step res*10+d per character', ['%s::from_str' % T], 'all valid UTF-8 strings of <= 2 bytes (longer strings repeat the same Horner step; a 3-byte harness exists, opt-in, never run to completion)', [MODEL]))
         S.append(K('conv::k_cmp_eq_%s' % f, T + ' == is limb equality of canonical representations; U256 ordering numeric', ['PartialEq', 'U256 Ord'], 'all pairs below p'))
         S.append(K('conv::k_random_canonical_%s' % f, T + '::random is fully reduced for EVERY RNG output stream', ['%s::random' % T, 'U256::random', 'U512::random'], 'RNG = arbitrary symbolic stream', [DIVC]))
     S.append(K('conv::k_conv_to_big_endian_fq', 'Fq::to_big_endian: Err on wrong buffer size (no panic); agrees with to_slice; is_even = parity of canonical value', ['Fq::to_big_endian', 'Fq::is_even'], 'buffer lengths 0..=40', [MODEL]))
@@ -175,7 +175,8 @@ def sel(specs, names):
 
 def run_c13(tier):
     S = k_conv_specs()
-    if tier == 'thorough':
+    if tier == 'thorough' and os.environ.get('VERIF_FROM_STR3'):
+        # opt-in only: the 2-byte harness needs 600-880 s of CBMC; the 3-byte one was never run to completion here
         S.append(K('conv::k_conv_from_str3_fr', 'Fr::from_str on all valid UTF-8 strings of <= 3 bytes', ['Fr::from_str'], '<= 3 bytes', [MODEL]))
     return kani.decide('C13', S, tier, pool=8) + Ld('C13', ['L-enc-q', 'L-enc-r', 'L-dec-q', 'L-dec-r', 'L-const', 'L-divrem-q', 'L-divrem-r', 'L-divrem-r-1'], tier)
 
@@ -227,19 +228,19 @@ PROPS = {
                 explanation='whole pairing entry points executed symbolically (Miller loop + final exponentiation, ~10^5 DAG nodes); the result may reach the raw Jacobian coordinates only through the to_affine outputs'),
     'C04': dict(run=run_c04, level='proof', trusted_base=ATRUST, not_covered=['associativity as such (a theorem about the curve once + is the chord-and-tangent law)'], explanation=''),
     'C15': dict(run=run_c15, level='proof', trusted_base=ATRUST, not_covered=['separating P from -P uses: no point of order two (group orders are odd)'], explanation=''),
-    'C12': dict(run=run_c12, level='proof', trusted_base=ATRUST + KTRUST, not_covered=['lazy-reduction multiplier sum_of_products::<2> (engine L, pending integration)'], explanation=''),
+    'C12': dict(run=run_c12, level='proof', trusted_base=ATRUST + KTRUST, not_covered=['Fq2::pow / frobenius_map on Fq2 alone (covered through the tower obligations of C17)'], explanation=''),
     'C17': dict(run=run_c17, level='proof', trusted_base=ATRUST, not_covered=['line functions (eval_g_tangent, eval_g_line, g_tangent, g_line, point_pi*, q_power_frobenius)', 'composition of the 65 Miller iterations / agreement of the two Miller loops'], explanation=''),
     'C09': dict(run=run_c09, level='proof', trusted_base=ATRUST + KTRUST, not_covered=['that r*P = O characterises the order-r subgroup of the twist (cofactor coprime to r): number theory, trusted',
                 'the 256-step subgroup scalar multiplication is followed along its generic path; its correctness is C05 + C04'], explanation=''),
     'C16': dict(run=run_c16, level='proof', trusted_base=ATRUST, not_covered=['scalar multiplication steps (C05)', 'pairing observers (C03)'], explanation='inductive-step argument: every operation, from ARBITRARY representatives (including non-canonical identities (x, y, 0)), returns a representative of the right group element and every observer depends only on the element'),
-    'C07': dict(run=run_c07, level='proof', trusted_base=KTRUST, not_covered=['termination of U256::invert', 'canonicity of mul/square/sum_of_products results (engine L, pending integration)'], explanation=''),
-    'C10': dict(run=run_c10, level='proof', trusted_base=KTRUST, not_covered=['independence of the representative for z != 1 (engine A, pending integration)'], explanation=''),
-    'C11': dict(run=run_c11, level='proof', trusted_base=KTRUST, not_covered=['Gt algebra (engine A, pending integration)', 'exponent laws needing g^r = 1'], explanation=''),
-    'C18': dict(run=run_c18, level='proof', trusted_base=KTRUST, not_covered=['release-profile side of the kernels (engine L, pending integration)', 'u512.rs self-checks'], explanation='every K harness is decided with debug assertions and overflow checks modelled (dev profile); a reachable debug_assert / overflow is a verification failure'),
-    'C13': dict(run=run_c13, level='proof', trusted_base=KTRUST, not_covered=['from_str beyond 3-byte strings (same Horner step repeated)'], explanation=''),
+    'C07': dict(run=run_c07, level='proof', trusted_base=KTRUST, not_covered=['U256::invert (binary extended Euclid: data-dependent trip count, no cut-point skeleton was built for it); its callers are covered only through the algebraic contract inv(a)*a = 1 used by engine A', 'sum_of_products::<4> range is decided under C17 (L-sop4), not repeated here'], explanation=''),
+    'C10': dict(run=run_c10, level='proof', trusted_base=KTRUST, not_covered=['compressed encoders choose the y-parity bit from the canonical y: decided bit-precisely only in the layout model (mul_dec_id contract), the value of y itself is the to_affine obligation of engine A'], explanation=''),
+    'C11': dict(run=run_c11, level='proof', trusted_base=KTRUST, not_covered=['exponent laws that need g^r = 1 for pairing outputs (order of the target group: a theorem about the curve, C01 territory)'], explanation=''),
+    'C18': dict(run=run_c18, level='proof', trusted_base=KTRUST, not_covered=['the debug self-check inside U512::divrem and U512::new (a 512-bit multiply-and-compare): CBMC returned no verdict in 25-40 min on k_u512_new_*; the harnesses are kept in the crate but not registered'], explanation='every K harness is decided with debug assertions and overflow checks modelled (dev profile); a reachable debug_assert / overflow is a verification failure'),
+    'C13': dict(run=run_c13, level='proof', trusted_base=KTRUST, not_covered=['from_str beyond 2-byte strings (the same Horner step repeated; the 3-byte harness k_conv_from_str3_fr exists but is opt-in and was never run to completion)'], explanation=''),
     'C08': dict(run=run_c08, level='proof', trusted_base=KTRUST, not_covered=['completeness for G2 needs Fq2::sqrt completeness (C14) and the subgroup theorem'], explanation=''),
     'C06': dict(run=run_c06, level='proof', trusted_base=KTRUST,
-                not_covered=['value of inverse on non-zero inputs', 'pow for symbolic exponents', 'mul/square kernels (engine L, pending)'],
+                not_covered=['U256::invert (binary extended Euclid, data-dependent trip count): only inverse(0) = None and the contract use inv(a)*a = 1 in engine A are covered', 'pow: the loop skeleton covers every exponent, the multiply/square callees are the L-mul / L-sq obligations; their composition is by induction on the loop, argued in DESIGN.md, not a solver query'],
                 explanation='bounded solver-decided obligations over the real code; see obligation_list'),
 }
 
